@@ -23,9 +23,10 @@ for label in sorted(R, key=lambda k: (not k.startswith("C"), k)):
         st = "**MISSED**"
         stats["missed"] += 1
     t = r.get("tests") or {}
-    rows.append("| %s | %s | %s | %s | %s | %s | %s |" % (label, ",".join(exp) or "none (harmless rewrite)", (r.get("what") or "").replace("|", "/")[:150], "%s/51" % t.get("passed"), st, " ".join(conc) or "-", " ".join(nofi) or "-"))
-print("| change | breaks | what | repo tests | verdict | checks with a concrete failing input | checks reporting no-failing-input-found |")
-print("|---|---|---|---|---|---|---|")
+    tr = ",".join((r.get("translator") or {}).get("failed", [])) or "-"
+    rows.append("| %s | %s | %s | %s | %s | %s | %s | %s |" % (label, ",".join(exp) or "none (harmless rewrite)", (r.get("what") or "").replace("|", "/")[:150], "%s/51" % t.get("passed"), st, " ".join(conc) or "-", " ".join(nofi) or "-", tr))
+print("| change | breaks | what | repo tests | verdict | checks with a concrete failing input | checks reporting no-failing-input-found | source-tie theorems broken (translator) |")
+print("|---|---|---|---|---|---|---|---|")
 print("\n".join(rows))
 print()
 print("Totals: %d property-breaking changes caught by the check of a property they break, %d caught only by other checks, %d missed; %d behaviour-preserving rewrites quiet, %d false alarms." % (stats["caught"], stats["elsewhere"], stats["missed"], stats["quiet"], stats["false"]))
